@@ -2,7 +2,7 @@
    This file contains only statements closed by `exact` and their Print Assumptions.
    outcome t = (the values yielded by trace t, the error class that ends it); sources are (kind, elements) with
    kind = synchronous or asynchronous iterable; callbacks are arbitrary functions. *)
-From AV Require Import Base Itertools ItertoolsProofs ItertoolsTee.
+From AV Require Import Base Itertools ItertoolsProofs ItertoolsTee ItertoolsAlias.
 
 Theorem C19_accumulate_agrees : forall (f : Z -> Z -> Z) (initial : option Z) (s : src),
   outcome (accumulate_model f initial s) = accumulate_spec f initial (snd s).
@@ -136,3 +136,54 @@ Theorem C19_tee_no_deadlock : forall (mode : nat) (source : list Z) (n : nat) (o
   tphase s c <> TIdle -> exists c', snd (fst (tstep s (TResume c'))) <> TRejected.
 Proof. exact tee_no_deadlock. Qed.
 Print Assumptions C19_tee_no_deadlock.
+
+(* ---- aliasing: the same iterator object at several argument positions (store of underlying iterators + a
+   position -> index list; distinct sources = no index twice).  Not covered by a theorem, only by the stdlib
+   differential in harness/c19.py: tee iterators passed onward into these functions (composition of the tee LTS
+   with the aliased models). *)
+Theorem C19_zip_longest_alias_agrees : forall (fill : Z) (kd : ikinds) (st : istore) (ps : list nat),
+  exists rows, zip_longest_alias_spec fill st ps = Some rows /\
+               zip_longest_alias_run fill kd st ps <> None /\
+               outcome (zip_longest_alias_model fill kd st ps) = (rows, None).
+Proof. exact zip_longest_alias_agrees. Qed.
+Print Assumptions C19_zip_longest_alias_agrees.
+
+Theorem C19_zip_longest_alias_spec_distinct : forall (fill : Z) (st : istore) (ps : list nat), NoDup ps ->
+  zip_longest_alias_spec fill st ps = Some (fst (zip_longest_spec fill (map st ps))).
+Proof. exact zip_longest_alias_spec_distinct. Qed.
+Print Assumptions C19_zip_longest_alias_spec_distinct.
+
+Theorem C19_chain_alias_agrees : forall (outer : kind) (kd : ikinds) (st : istore) (ps : list nat),
+  outcome (chain_alias_model outer kd st ps) = chain_alias_spec st ps.
+Proof. exact chain_alias_agrees. Qed.
+Print Assumptions C19_chain_alias_agrees.
+
+Theorem C19_product_alias_agrees : forall (rep : Z) (kd : ikinds) (st : istore) (ps : list nat),
+  outcome (product_alias_model rep kd st ps) = product_alias_spec rep st ps.
+Proof. exact product_alias_agrees. Qed.
+Print Assumptions C19_product_alias_agrees.
+
+Theorem C19_starmap_alias_agrees : forall (f : list Z -> Z) (outer : kind) (kd : ikinds) (st : istore) (ps : list nat),
+  outcome (starmap_alias_model f outer kd st ps) = starmap_alias_spec f st ps.
+Proof. exact starmap_alias_agrees. Qed.
+Print Assumptions C19_starmap_alias_agrees.
+
+Theorem C19_compress_self_agrees : forall (s : src),
+  outcome (compress_self_model s) = compress_self_spec (snd s).
+Proof. exact compress_self_agrees. Qed.
+Print Assumptions C19_compress_self_agrees.
+
+Theorem C19_chain_alias_spec_distinct : forall (st : istore) (ps : list nat), NoDup ps ->
+  chain_alias_spec st ps = chain_spec (map st ps).
+Proof. exact chain_alias_spec_distinct. Qed.
+Print Assumptions C19_chain_alias_spec_distinct.
+
+Theorem C19_product_alias_spec_distinct : forall (rep : Z) (st : istore) (ps : list nat), NoDup ps ->
+  product_alias_spec rep st ps = product_spec rep (map st ps).
+Proof. exact product_alias_spec_distinct. Qed.
+Print Assumptions C19_product_alias_spec_distinct.
+
+Theorem C19_starmap_alias_spec_distinct : forall (f : list Z -> Z) (st : istore) (ps : list nat), NoDup ps ->
+  starmap_alias_spec f st ps = starmap_spec f (map st ps).
+Proof. exact starmap_alias_spec_distinct. Qed.
+Print Assumptions C19_starmap_alias_spec_distinct.
